@@ -608,6 +608,28 @@ def _run(ctx):
     if not nd:
         ctx.flush(DRIVER)
     ctx.note(f"driver wall {_t.time() - t0:.1f}s for the batched requests")
+    # the zeroth power is the identity for EVERY request: the array handed out belongs to the caller, who may edit it
+    for alg, A in ALGS.items():
+        for d in ((4, 9, 16) if alg != "hrr" else (3, 4, 16)):
+            case = {"op": "pow-zero-after-caller-edit", "alg": alg, "d": d}
+            ctx.count(f"pow0 alias {alg} {d}", branch="power-zero-aliased")
+            try:
+                with warnings.catch_warnings():
+                    warnings.simplefilter("ignore")
+                    v1 = np.arange(1.0, d + 1.0)
+                    first = np.array(A.binding_power(v1, 0), dtype=float)
+                    handed = A.binding_power(v1, 0)
+                    if isinstance(handed, np.ndarray) and handed.flags.writeable:
+                        handed *= -3.0
+                        handed += 1.0
+                    again = np.array(A.binding_power(v1[::-1].copy(), 0), dtype=float)
+                    x = np.linspace(-1.0, 2.0, d)
+                    bound = np.array(A.bind(x, again), dtype=float)
+                if not np.array_equal(first, again) or not np.allclose(bound, x, rtol=0, atol=1e-12):
+                    ctx.fail(case, {"second_zeroth_power": again.tolist()[:6], "bind(x, it)": bound.tolist()[:6]},
+                             {"zeroth_power": first.tolist()[:6], "bind(x, it)": x.tolist()[:6]}, where=f"power-zero-aliased-{alg}")
+            except Exception as e:  # noqa: BLE001
+                ctx.fail(case, f"{type(e).__name__}: {e}"[:100], "the identity", where=f"power-zero-aliased-{alg}")
     ctx.note("HRR make_unitary and fractional powers: certified per input (residual / additivity), not proved for all v (spectral layer absent)")
     if not HAVE_SCIPY:
         ctx.note("SciPy absent: VTB/TVTB fractional powers refused with ImportError (modelled); SciPy path not exercised")
